@@ -83,3 +83,17 @@ extern "C" void h_categories(void) {
    vp_observe(2, v.nodes);
    vp_done();
 }
+// address reuse: the nodes of one zoo case are examined in Lexicon A, A is destroyed, and a neighbouring zoo case is built in a second
+// Lexicon by an allocator that hands freed blocks out again (engine bound alloc_reuse; natively: malloc), so that nodes of other categories
+// sit at the addresses of dead ones.  Every answer must depend on the node that is there now.
+extern "C" void h_address_reuse(void) {
+   unsigned total = zoo::count();
+   unsigned which = vp_pick(total); unsigned delta = vp_pick(3);
+   vp_observe(1, which);
+   { zoo::World* a = new zoo::World; a->concrete = true; Category_check v; zoo::build(*a, which, v); delete a; }      // operands of the first life: deterministic picks
+   zoo::World* b = new zoo::World;
+   Category_check v;
+   zoo::build(*b, (which + (delta == 0 ? 1 : delta == 1 ? 2 : total - 1)) % total, v);
+   vp_observe(2, v.nodes);
+   vp_done();
+}
